@@ -37,6 +37,8 @@ type Entry struct {
 	Loaded                          bool
 	//only used temporary
 	Chains *core.CertificateChains
+	//locations the entry was added for, needed to load the entry outside of AddCRL (background fetch mode)
+	Locations *core.CRLLocations
 }
 
 func NewCRLRepository(logger *zap.Logger, crlConfig *config.CRLConfig, storeType crlstore.StoreType) (error, *Repository) {
@@ -64,7 +66,7 @@ func (R *Repository) AddCRL(crlLocations *core.CRLLocations, chains *core.Certif
 	if err != nil {
 		return false, fmt.Errorf("could not calculate crl location identifier: %v", err)
 	}
-	entry, crlAdded, err := R.getOrAddEntry(identifier, loader, chains)
+	entry, crlAdded, err := R.getOrAddEntryWithLocations(identifier, loader, chains, crlLocations)
 	if err != nil {
 		return false, err
 	}
@@ -94,11 +96,15 @@ func (R *Repository) isEntryLoaded(entry *Entry) bool {
 }
 
 func (R *Repository) getOrAddEntry(identifier string, loader crlloader.CRLLoader, chains *core.CertificateChains) (*Entry, bool, error) {
+	return R.getOrAddEntryWithLocations(identifier, loader, chains, nil)
+}
+
+func (R *Repository) getOrAddEntryWithLocations(identifier string, loader crlloader.CRLLoader, chains *core.CertificateChains, crlLocations *core.CRLLocations) (*Entry, bool, error) {
 	R.crlRepositoryLock.Lock()
 	defer R.crlRepositoryLock.Unlock()
 	entry := R.crlRepository[identifier]
 	if entry == nil {
-		entry, err := R.addNewEmptyEntry(loader, identifier, chains)
+		entry, err := R.addNewEmptyEntry(loader, identifier, chains, crlLocations)
 		if err != nil {
 			//crl was not added because of error
 			return entry, false, err
@@ -167,7 +173,7 @@ func (R *Repository) loadCRL(entry *Entry, chains *core.CertificateChains) (err 
 	return nil
 }
 
-func (R *Repository) addNewEmptyEntry(loader crlloader.CRLLoader, identifier string, chains *core.CertificateChains) (*Entry, error) {
+func (R *Repository) addNewEmptyEntry(loader crlloader.CRLLoader, identifier string, chains *core.CertificateChains, crlLocations *core.CRLLocations) (*Entry, error) {
 	store, err := R.Factory.CreateStore(identifier, false)
 	if err != nil {
 		return nil, err
@@ -176,6 +182,7 @@ func (R *Repository) addNewEmptyEntry(loader crlloader.CRLLoader, identifier str
 		CRLLoader: loader,
 		CRLStore:  store,
 		Chains:    chains,
+		Locations: crlLocations,
 		entryLock: &sync.RWMutex{},
 	}
 	//if this is persistent store it might be present already
@@ -273,6 +280,13 @@ func (R *Repository) updateCRL(identifier string) error {
 	if entry != nil {
 		R.logger.Debug("updating crl from " + entry.CRLLoader.GetDescription())
 		if R.isEntryLoaded(entry) == false {
+			if entry.Locations != nil {
+				//the locations are needed for later updates of the crl
+				err := entry.CRLStore.UpdateCRLLocations(entry.Locations)
+				if err != nil {
+					return err
+				}
+			}
 			return R.loadCRL(entry, entry.Chains)
 		} else {
 			return R.updateCrlEntry(entry, nil)
@@ -524,6 +538,10 @@ func (R *Repository) UpdateCRL(crlLocations *core.CRLLocations, chains *core.Cer
 	}
 	entry := R.getEntrySync(identifier)
 	if entry != nil {
+		if R.isEntryLoaded(entry) == false {
+			//not yet loaded (background fetch mode), there is nothing to update yet
+			return R.loadActively(entry, chains, crlLocations)
+		}
 		err := R.updateCrlEntry(entry, chains)
 		if err != nil {
 			return err
